@@ -220,7 +220,7 @@ func Desc(t reflect.Type) string {
 }
 
 // Render writes v (of static type t) in the value syntax.
-func Render(t reflect.Type, v reflect.Value, sb *strings.Builder) error {
+func Render(t reflect.Type, v reflect.Value, sb *strings.Builder, renderReverse bool) error {
 	w := func(s string) {
 		if sb.Len() > 0 {
 			sb.WriteByte(' ')
@@ -262,7 +262,7 @@ func Render(t reflect.Type, v reflect.Value, sb *strings.Builder) error {
 			w("n")
 			return nil
 		}
-		return Render(t.Elem(), v.Elem(), sb)
+		return Render(t.Elem(), v.Elem(), sb, renderReverse)
 	case reflect.Slice:
 		if v.IsNil() {
 			w("n")
@@ -274,7 +274,7 @@ func Render(t reflect.Type, v reflect.Value, sb *strings.Builder) error {
 		}
 		w(fmt.Sprintf("L%d", v.Len()))
 		for i := 0; i < v.Len(); i++ {
-			if err := Render(t.Elem(), v.Index(i), sb); err != nil {
+			if err := Render(t.Elem(), v.Index(i), sb, renderReverse); err != nil {
 				return err
 			}
 		}
@@ -313,10 +313,10 @@ func Render(t reflect.Type, v reflect.Value, sb *strings.Builder) error {
 			return less
 		})
 		for _, k := range keys {
-			if err := Render(t.Key(), k, sb); err != nil {
+			if err := Render(t.Key(), k, sb, renderReverse); err != nil {
 				return err
 			}
-			if err := Render(t.Elem(), v.MapIndex(k), sb); err != nil {
+			if err := Render(t.Elem(), v.MapIndex(k), sb, renderReverse); err != nil {
 				return err
 			}
 		}
@@ -324,7 +324,7 @@ func Render(t reflect.Type, v reflect.Value, sb *strings.Builder) error {
 		fs := structFields(t)
 		w(fmt.Sprintf("S%d", len(fs)))
 		for _, f := range fs {
-			if err := Render(f.typ, v.FieldByIndex(f.index), sb); err != nil {
+			if err := Render(f.typ, v.FieldByIndex(f.index), sb, renderReverse); err != nil {
 				return err
 			}
 		}
@@ -337,7 +337,7 @@ func Render(t reflect.Type, v reflect.Value, sb *strings.Builder) error {
 		for i, a := range ifaceAlts(t) {
 			if conc.Type() == reflect.PointerTo(a.typ) {
 				w(fmt.Sprintf("I%d", i))
-				return Render(a.typ, conc.Elem(), sb)
+				return Render(a.typ, conc.Elem(), sb, renderReverse)
 			}
 		}
 		return fmt.Errorf("unregistered implementation %s", conc.Type())
@@ -347,14 +347,10 @@ func Render(t reflect.Type, v reflect.Value, sb *strings.Builder) error {
 	return nil
 }
 
-// renderReverse: write map entries in reverse canonical order.
-var renderReverse bool
-
+// RenderString; reverse: write map entries in reverse canonical order.
 func RenderString(t reflect.Type, v reflect.Value, reverse bool) (string, error) {
-	renderReverse = reverse
-	defer func() { renderReverse = false }()
 	var sb strings.Builder
-	err := Render(t, v, &sb)
+	err := Render(t, v, &sb, reverse)
 	return sb.String(), err
 }
 
